@@ -11,6 +11,7 @@ import IbcVerif.Driver.Delay
 import IbcVerif.Driver.Version
 import IbcVerif.Driver.Router
 import IbcVerif.Driver.Authz
+import IbcVerif.Driver.Merkle
 open Lean
 namespace IbcVerif.Driver.Pure
 open IbcVerif.J
@@ -24,6 +25,7 @@ def handlers : List (String → Json → Option (Except String Json)) :=
   , IbcVerif.Driver.Version.handle
   , IbcVerif.Driver.Router.handle
   , IbcVerif.Driver.Authz.handle
+  , IbcVerif.Driver.Merkle.handle
   ]
 
 def handle (f : String) (j : Json) : Except String Json :=
